@@ -42,9 +42,52 @@ ASSUMPTIONS = [
 ]
 
 
+def colliding_ids_case(mon, rng):
+    """Readers / converters fed with explicit IDs that collide (after a documented cast): the first record is kept,
+    the later one is refused with a warning (clause c), whatever the entry point."""
+    pool = ops.node_pool(rng, "int")[1]
+    m1, m2 = ops.rand_members(rng, pool, 2, 3), ops.rand_members(rng, pool, 2, 3)
+    while set(m2) == set(m1):
+        m2 = ops.rand_members(rng, pool, 2, 4)
+    how = rng.choice(("from_hypergraph_dict", "read_json", "add_edges_from-fmt2", "add_edges_from-fmt4"))
+    a, b = rng.choice((("1", "01"), ("3", " 3"), ("2", "2"), ("7", "07")))
+    with warnings.catch_warnings(record=True) as w:
+        warnings.simplefilter("always")
+        if how in ("from_hypergraph_dict", "read_json"):
+            data = {"hypergraph-data": {}, "node-data": {str(n): {} for n in set(m1) | set(m2)}, "edge-data": {a: {}, b: {}} if a != b else {a: {}},
+                    "edge-dict": {a: [str(n) for n in m1], b: [str(n) for n in m2]} if a != b else {a: [str(n) for n in m1]}}
+            if a == b:
+                return
+            if how == "from_hypergraph_dict":
+                H = xgi.from_hypergraph_dict(data, nodetype=int, edgetype=int)
+            else:
+                import json as _json
+
+                with tempfile.TemporaryDirectory(prefix="xgimon-c04-") as td:
+                    pth = os.path.join(td, "c.json")
+                    with open(pth, "w") as f:
+                        _json.dump(data, f)
+                    H = xgi.read_json(pth, nodetype=int, edgetype=int)
+        else:
+            H = xgi.Hypergraph()
+            i = int(a)
+            eb = [(m1, i), (m2, i)] if how.endswith("fmt2") else [(m1, i, {"k": 1}), (m2, i, {"k": 2})]
+            H.add_edges_from(eb)
+    mon.ev()
+    mon.note("dup-explicit-ids-checked")
+    mon.note(f"colliding:{how}")
+    got = {e: set(m) for e, m in H.edges.members(dtype=dict).items()}
+    key = int(a)
+    if got != {key: set(m1)}:
+        mon.fail(f"{how}|colliding-explicit-ids|later-record-replaced-or-lost-the-first", f"{how}: two records with the same edge ID {key} (members {m1} then {m2}) gave {got}; the first must be kept, the second refused",
+                 f"ids {a!r}, {b!r}; members {m1}, {m2}")
+    elif not w:
+        mon.fail(f"{how}|colliding-explicit-ids|no-warning", f"{how}: the record with the already existing edge ID {key} was dropped without a warning", f"ids {a!r}, {b!r}")
+
+
 def plan(tier):
     n = len(PROVS)
-    return {"prov": n * (70 if tier == "quick" else 4000), "history": 6000 if tier == "quick" else 150000}
+    return {"prov": n * (70 if tier == "quick" else 4000), "history": 6000 if tier == "quick" else 150000, "colliding": 300 if tier == "quick" else 30000}
 
 
 def floors(tier):
@@ -779,6 +822,8 @@ def _flat_req(m, di):
 
 def run_case(mon, kind, idx, rng):
     hist = []
+    if kind == "colliding":
+        return colliding_ids_case(mon, rng)
     if kind == "prov":
         names = list(PROVS)
         name = names[idx % len(names)]
